@@ -298,3 +298,9 @@ for fla, lg, mx, minel, hs, tier in (('node_log2', 1, 4096, 8, 512, 'quick'), ('
     add('c19-buckets-%s' % fla, ['C19'], 'arith', 'c19_buckets.c', config='release', defines=['FLA=%s' % fla, 'MAXN=%d' % mx, 'MINEL=%d' % minel, 'HEAP_SIZE=%d' % hs] + (['LOG2'] if lg else []),
         unwind=30, timeout=900 if tier == 'quick' else 3000, tier=tier, mem_gb=8 if tier == 'quick' else 24,
         desc='free_list_array<%s>: constructor for a symbolic max node size, get(size) for every size 1..max' % fla, bounds='max node size %d..%d, every size 1..max' % (minel, mx))
+
+# ---------------------------------------------------------------- C13 (b): shared counters and handler pointers are only touched atomically (IR audit)
+for grp, cfg in (('lowlevel', 'baseline'), ('temp', 'release')):
+    add('c13-atomics-%s' % grp, ['C13'], grp, 'll_step.c', config=cfg, static_audit='atomics', threads=2 if grp == 'temp' else 1, witness=False,
+        desc='syntactic audit of the linked LLVM IR: every load/store of the global leak counters, the handler pointers and the temporary stack list head is an atomic instruction',
+        bounds='all instructions of the linked module (not a solver query)')
